@@ -431,7 +431,7 @@ Lemma cut_fast_unfold o d line0 : o_delim o = [d] ->
   end.
 Proof.
   intros Hd. unfold cut_fast, buffer_of. rewrite Hd.
-  destruct (o_trim o) as [k|]; cbv iota; cbv delta [byte bytes].
+  destruct (o_trim o) as [k|]; cbv iota.
   - destruct (trim_lit k [d] line0) as [|c0 buf]; [reflexivity|].
     destruct (scan_starts (lif (o_bounds o)) 0 (positions_from d 0 (c0 :: buf))); reflexivity.
   - destruct line0 as [|c0 buf]; [reflexivity|].
@@ -456,7 +456,7 @@ Lemma cut_str_unfold o d line0 :
 Proof.
   intros [Hd [Hr [Hj [Hb Hx]]]] Hc Hg Hp. unfold cut_str, buffer_of.
   rewrite Hx, Hr, Hd, Hb, Hc, Hg, Hp, Hj. cbn [andb orb btype_eqb].
-  destruct (o_trim o) as [k|]; cbv iota; cbv delta [byte bytes].
+  destruct (o_trim o) as [k|]; cbv iota.
   - destruct (trim_lit k [d] line0) as [|c0 buf]; [reflexivity|]. cbv zeta.
     match goal with |- (if ?c then _ else _) = _ => destruct c end; [reflexivity|].
     match goal with |- match ?x with _ => _ end = _ => destruct x end; reflexivity.
